@@ -394,6 +394,8 @@ class StoreSession:
                 self.mutations += 1
         elif k == "add_nodes":
             nodes = [(l, tuple(p)) for l, p in op["nodes"]]
+            if len(nodes) > 128:
+                self.bump("probe_bulk_load_over_128_rows")
             if sq is not None:
                 sq.add_nodes(nodes)
             for l, p in nodes:
